@@ -389,4 +389,26 @@ theorem mainLoop_res (D : VarDom) (hD : D.PmvOk) (P : List (List Nat)) (hP : Tab
           simp only []
           exact mainLoop_res D hD P hP row gs1 fuel s' _ hJ' (by simpa using hle) (by simp only []; omega)
 
+/-- `result[:resultLength-2]` / `[:resultLength-1]` stay in range under `J` -/
+theorem finish_typed (s : St) (hJ : J s) : Typed (finish s) := by
+  unfold finish
+  split
+  · exact Or.inr (Or.inr (Or.inl rfl))
+  · simp only []
+    split
+    · exact Or.inr (Or.inl rfl)
+    · rename_i hne
+      by_cases hlp : s.lastPrintable = true
+      · simp only [hlp, if_true]
+        by_cases hC : s.codeSet = 99
+        · have := hJ hlp hC
+          simp only [hC, if_true]
+          rw [if_neg (by simp only [List.length_reverse] at hne ⊢; omega)]
+          exact Or.inl ⟨_, rfl⟩
+        · simp only [hC, if_false]
+          rw [if_neg (by simp only [List.length_reverse] at hne ⊢; omega)]
+          exact Or.inl ⟨_, rfl⟩
+      · simp only [hlp]
+        exact Or.inl ⟨_, rfl⟩
+
 end Gzx.Row128
